@@ -327,10 +327,10 @@ package engine
 //@   loop 1 invariant lk: !held(g.lock)
 //@   loop 1 decreases len(rules) - rangeindex
 //@   use selectedfacts(1, names)
-//@   loop 1 invariant [C05] sorted: sortedDesc(rules)
+//@   loop 1 invariant [C05,C12] sorted: sortedDesc(rules)
 //@   use forkloop(2, wg, len(rules) - 1, 0)
 //@   use selectedfacts(2, names)
-//@   loop 2 invariant [C05] sorted: sortedDesc(rules)
+//@   loop 2 invariant [C05,C12] sorted: sortedDesc(rules)
 //@   loop 2 invariant inv: cursor == 1 && !failed && stage == 0 && len(rules) >= 3
 
 //@ func (*Gengine).ExecuteSelectedRulesInverseMixModel$1
@@ -366,10 +366,10 @@ package engine
 //@   loop 1 invariant lk: !held(g.lock)
 //@   loop 1 decreases len(rules) - rangeindex
 //@   use selectedfacts(1, names)
-//@   loop 1 invariant [C05] sorted: sortedDesc(rules)
+//@   loop 1 invariant [C05,C12] sorted: sortedDesc(rules)
 //@   use forkloop(2, wg, len(rules) - 1, 0)
 //@   use selectedfacts(2, names)
-//@   loop 2 invariant [C05] sorted: sortedDesc(rules)
+//@   loop 2 invariant [C05,C12] sorted: sortedDesc(rules)
 //@   loop 2 invariant inv: cursor == 0 && stage == 0 && len(rules) > 2 && !stopped
 
 // ---------------------------------------------------------------------------
@@ -504,7 +504,7 @@ package engine
 //@   loop 1 invariant lk: !held(g.lock)
 //@   loop 1 decreases nSort - rangeindex
 //@   use selectedfacts(1, names)
-//@   loop 1 invariant [C05] sorted: sortedDesc(rules)
+//@   loop 1 invariant [C05,C12] sorted: sortedDesc(rules)
 //@   use forkloop(2, wg, mConcurrent, 0)
 //@   use selectedfacts(2, names)
 //@   loop 2 invariant inv: cursor == nSort && (b || !failed) && stage == 0 && len(rules) == len(names) && len(names) == nSort + mConcurrent && nSort > 0 && mConcurrent > 0
@@ -547,7 +547,7 @@ package engine
 //@   loop 2 invariant lk: !held(g.lock)
 //@   loop 2 decreases mSort - rangeindex
 //@   use selectedfacts(2, names)
-//@   loop 2 invariant [C05] sorted: sortedDesc(rules)
+//@   loop 2 invariant [C05,C12] sorted: sortedDesc(rules)
 
 //@ func (*Gengine).ExecuteSelectedNConcurrentMConcurrent$1
 //@   use lesscontract(C05 C12)
